@@ -593,7 +593,8 @@ func genCase(layer string) func(t *rapid.T) routeCase {
 		}
 		if hasB {
 			c.Cfg.HasBroadcast, c.Cfg.BroadcastIP, c.Cfg.BroadcastPort = true, gen.IPv4(t, "broadcast.ip"), gen.Port(t, "broadcast.port")
-			if c.Cfg.BroadcastIP == [4]byte{} {
+			if c.Cfg.BroadcastIP == [4]byte{} && (layer == "socket" || rapid.IntRange(0, 2).Draw(t, "broadcast.unspecified") != 0) {
+				// (hook layer: a broadcast address of 0.0.0.0:port is a configured address like any other)
 				c.Cfg.BroadcastIP = [4]byte{192, 168, 1, 255}
 			}
 		}
